@@ -147,19 +147,21 @@ def split(msg, size):
 
     :yield: `bytes`
     """
-    stx, frame, msg, tail = msg[:1], msg[1:2], msg[2:-6], msg[-6:]
+    # NOTE: the CR that terminates the message text is chunked together with
+    #       the text, so that the last frame does not exceed `size` either
+    stx, frame, msg, tail = msg[:1], msg[1:2], msg[2:-5], msg[-5:]
     assert stx == STX
     assert frame.isdigit()
+    assert msg.endswith(CR)
     assert tail.endswith(CRLF)
     assert size is not None and size >= 7
     frame = int(frame)
     chunks = make_chunks(msg, size - 7)
     chunks, last = chunks[:-1], chunks[-1]
-    idx = 0
     for idx, chunk in enumerate(chunks):
         item = b"".join([str((idx + frame) % 8).encode(), chunk, ETB])
         yield b"".join([STX, item, make_checksum(item), CRLF])
-    item = b"".join([str((idx + frame + 1) % 8).encode(), last, CR, ETX])
+    item = b"".join([str((len(chunks) + frame) % 8).encode(), last, ETX])
     yield b"".join([STX, item, make_checksum(item), CRLF])
 
 
